@@ -35,7 +35,16 @@ ASSUMPTIONS = ["exceptions that were raised (non-empty traceback); an exception 
 MSGS = ["boom", "", "two\nlines", "naïve é λ ✓", "<error>open", "close</error>", "</b>", "<b>bold</b> and <c1>x</c1>", "a < b > c",
         "trailing backslash \\", "back\\<slash", "<fg=red>x</>", "\\", "tab\there", "  padded  ", "<", "ends with <", "</>", "100% {braces}",
         "\x1b[31mred\x1b[0m", "three\n\n  lines\\\nlast", "<fg=nope>y", "\\<b>", "x" * 300]
-EXCS = ["RuntimeError", "ValueError", "KeyError", "Custom", "MarkupName", "ClosingName", "OSError", "SyntaxError", "Lib"]
+EXCS = ["RuntimeError", "ValueError", "KeyError", "Custom", "MarkupName", "ClosingName", "OSError", "SyntaxError", "Lib",
+        "Sol0", "Sol1", "Sol2", "Sol3", "SolSelf"]
+# solutions offered by the exception (crashtest ProvidesSolution / Solution): title, description, links
+SOLUTIONS = {
+    "Sol0": [("Use the other thing.", "Do this\nand then that.", ["https://example.org/docs"])],
+    "Sol1": [("Use <b>tags</b>...", "wrap the text in <info>...</info>,\n  then close with </b>  ", ["https://x.y/<z>", "https://x.y/a?b=<c1>"])],
+    "Sol2": [("Close </error>", "", []), ("Second \\", "ends with a backslash \\", ["l\\", "m"])],
+    "Sol3": [("", "  \n\n<fg=nope>x", ["</>"])],
+    "SolSelf": [("I am my own solution", "a < b\\<c", [])],
+}
 FNAMES = ["<string>", "<stdin>", "<b>", "</b>", "<fg=red>", "a<error>b", "<frozen x>", "weird\\"]
 
 I = "{I}"
@@ -119,6 +128,10 @@ def gen(rng, tier, info):
     for e in range(len(EXCS)):
         for v in (0, 3):
             cases.append(_case(exc=e, verb=v, msg=rng.randrange(len(MSGS))))
+    for e in range(9, len(EXCS)):
+        for fmt in ("plain", "ansi"):
+            for u in (0, 1):
+                cases.append(_case(exc=e, fmt=fmt, utf8=u, verb=rng.randrange(4)))
     for fi in range(len(FNAMES)):
         for v in (0, 1, 3):
             cases.append(_case(origin="exec:%d" % fi, verb=v, site=rng.randrange(len(SITES))))
@@ -279,6 +292,33 @@ def make_exc(kind, msg):
         return OSError(2, msg)
     if name == "SyntaxError":
         return SyntaxError(msg, ("some<b>file.py", 3, 1, "x = </b>\n"))
+    if name.startswith("Sol"):
+        from crashtest.contracts.base_solution import BaseSolution
+        from crashtest.contracts.provides_solution import ProvidesSolution
+        from crashtest.contracts.solution import Solution
+        sols = []
+        for t, d, ls in SOLUTIONS[name]:
+            so = BaseSolution(t, d)
+            so.documentation_links.extend(ls)
+            sols.append(so)
+        if name == "SolSelf":
+            class SelfSolving(Exception, Solution):
+                solution_title = SOLUTIONS[name][0][0]
+                solution_description = SOLUTIONS[name][0][1]
+                documentation_links = []
+            return SelfSolving(msg)
+
+        class Solvable(Exception, ProvidesSolution):
+            @property
+            def solution(self):
+                return sols[0]
+        if len(sols) > 1:
+            class Both(Solvable, Solution):
+                solution_title = sols[1].solution_title
+                solution_description = sols[1].solution_description
+                documentation_links = sols[1].documentation_links
+            return Both(msg)
+        return Solvable(msg)
     from clikit.api.exceptions import CliKitException
 
     class LibFailure(CliKitException):
@@ -425,7 +465,9 @@ def run_impl(c):
         log.append([bio.output._indent, string])
         orig(string, flags=flags)
     bio.output.write_line = rec
-    trace = ExceptionTrace(e)
+    from crashtest.solution_providers.solution_provider_repository import SolutionProviderRepository
+    repo = SolutionProviderRepository() if c["exc"] % 2 == 0 or EXCS[c["exc"]].startswith("Sol") else None
+    trace = ExceptionTrace(e, repo)
     pattern = IGNORES[c["ignore"]]
     if pattern == "vendor":
         pattern = re.escape(r["vendor_dir"])
@@ -443,7 +485,7 @@ def run_impl(c):
         ExceptionTrace._FRAME_SNIPPET_CACHE.clear()
         pio = BufferedIO(supports_utf8=bool(c["utf8"]))
         pio.set_verbosity([F.NORMAL, F.VERBOSE, F.VERY_VERBOSE, F.DEBUG][c["verb"]])
-        t2 = ExceptionTrace(e)
+        t2 = ExceptionTrace(e, repo)
         if pattern is not None:
             t2.ignore_files_in(pattern)
         try:
@@ -468,7 +510,10 @@ def run_impl(c):
         frames.append({"file": fr.filename, "ignored": bool(pattern is not None and re.match(pattern, fr.filename)), "lineno": fr.lineno,
                        "func": fr.function, "line": fr.line, "fi": findex[key], "lt": _tokens(_norm(fr.line.strip()))})
     home = os.path.expanduser("~")
-    obs = {"status": status, "out": out, "log": log, "frames": frames, "files": files, "cwd": os.getcwd(), "home": home,
+    sols = []
+    if repo is not None:
+        sols = [[so.solution_title, so.solution_description, list(so.documentation_links)] for so in repo.get_solutions_for_exception(e)]
+    obs = {"sols": sols,"status": status, "out": out, "log": log, "frames": frames, "files": files, "cwd": os.getcwd(), "home": home,
            "name": type(e).__name__, "msg": str(e), "pattern": pattern, "plain_out": plain_out, "run": {k: r[k] for k in ("src", "path", "site_line")}}
     os.chdir(_STATE["cwd0"])
     import shutil
@@ -512,7 +557,7 @@ def wire_from(c, o):
     frames = [[S(f["file"]), int(f["ignored"]), f["lineno"], S(f["func"]), S(f["line"]), f["fi"], _tokres(f["lt"])] for f in o["frames"]]
     fk = 1 if c["fmt"] == "ansi" else 2
     return [0, fk, 0, _style_set(), c["simple"], int(c["verb"] >= 1), int(c["verb"] >= 3), c["utf8"], S(o["cwd"]), S(o["home"]), ord(os.path.sep),
-            S(o["name"]), S(o["msg"]), files, frames]
+            S(o["name"]), S(o["msg"]), files, frames, [[S(t), S(d), [S(l) for l in ls]] for t, d, ls in o["sols"]]]
 
 
 def canon_impl(c, o):
@@ -691,6 +736,13 @@ def oracle(c, o):
     got = [l.strip() for l in lines]
     if not any(got[i:i + len(want)] == want for i in range(len(got) - len(want) + 1)):
         return "message-text-missing"
+    # what the solutions say is text too
+    squash = lambda t: " ".join(t.split())
+    flat = squash(out)
+    for t, d, ls in o["sols"]:
+        for piece in [t.rstrip(".")] + d.split("\n") + list(ls):
+            if squash(piece) and squash(piece) not in flat:
+                return "solution-text-missing"
     # the snippet of the failing frame: the numbered lines after the last 'at file:line in function' line
     last = o["frames"][-1]
     at = [i for i, l in enumerate(lines) if l.startswith("  at ") and (":%d in " % last["lineno"]) in l]
